@@ -33,6 +33,7 @@ type MassDBV1 struct {
 	pubKey     *pocec.PublicKey
 	pubKeyHash pocutil.Hash
 	plotting   int32 // atomic
+	stopping   int32 // atomic, stopPlotCh of the running plot has been closed
 	stopPlotCh chan struct{}
 	wg         sync.WaitGroup
 }
@@ -69,6 +70,7 @@ func (mdb *MassDBV1) Plot() chan error {
 	}
 
 	mdb.stopPlotCh = make(chan struct{})
+	atomic.StoreInt32(&mdb.stopping, 0)
 	mdb.wg.Add(1)
 	go mdb.executePlot(result)
 
@@ -85,7 +87,11 @@ func (mdb *MassDBV1) StopPlot() chan error {
 	}
 
 	go func() {
-		close(mdb.stopPlotCh)
+		// StopPlot may be called more than once for the same plot (a workspace stop and the
+		// plotter's monitor on keeper stop): only the first call closes the channel
+		if atomic.CompareAndSwapInt32(&mdb.stopping, 0, 1) {
+			close(mdb.stopPlotCh)
+		}
 		mdb.wg.Wait()
 		result <- nil
 	}()
